@@ -67,7 +67,8 @@ def run(tier):
     rng = random.Random(seed())
     total = len(scripts)
     if tier == "quick":       # the enumeration is TLC's; a seeded sample of it is executed on every change (the node-down scripts always)
-        down = [s for s in scripts if any(st.get("op") == "stop" for st in s["steps"]) or "use_reject" in s or "slow_use_node" in s]
+        down = [s for s in scripts if any(st.get("op") == "stop" or st.get("raw") for st in s["steps"]) or "use_reject" in s or "slow_use_node" in s
+                or "use_void" in s or "zero_token" in s]
         scripts = down + rng.sample([s for s in scripts if s not in down], 50)
     ins = [dict(s, id=i) for i, s in enumerate(scripts)]
     shape = {"nodes": [{"shards": 0}, {"shards": 0}], "pool": {"kind": "per_host", "n": 1}, "use_delay_ms": 0}
